@@ -91,6 +91,14 @@ mod top_n;
 mod values;
 mod window;
 
+/// Re-exports of otherwise private units, for out-of-tree verification harnesses.
+#[cfg(risinglight_verif)]
+pub mod verif_hooks {
+    pub use super::evaluator::Evaluator;
+    pub use super::order::verif_order_cmp;
+    pub use super::top_n::verif_topn_cmp;
+}
+
 /// The maximum chunk length produced by executor at a time.
 const PROCESSING_WINDOW_SIZE: usize = 1024;
 
